@@ -1,1 +1,3 @@
 import Petl.Val
+import Petl.Proto
+import Petl.Ops
